@@ -258,7 +258,7 @@ for _p, _extra in (("C02", "; lock flags show/update excluded"), ("C03", ""), ("
 _quick("C13", "C13_binseq", "every program of 3 well-formed binary frames out of 12 forms (INIT, LOCK / UNLOCK on two keys, LOCK with a value frame, LOCK that waits, WILL_LOCK, WILL_UNLOCK, PING, STATE, CALL LIST_LOCK, INIT under another id) on one connection, then Close and a PING on a second connection", ["-witness", "100"], reach=["end", "closed"])
 _thorough("C13", "C13_binseq4", "as C13_binseq with 4 frames", ["-witness", "1000"], reach=["end", "closed"])
 
-_quick("C15", "C15_textkv", "every program of 3 Redis-style text commands out of 16 forms over a string key and a counter key (SET, SET empty, GET, DEL, SETNX, GETSET, APPEND, EXISTS, STRLEN, INCR, DECRBY, GET/DEL/EXISTS of the counter, EXPIRE, PERSIST) on a real TextServerProtocol with waiting disabled, each reply compared with a map-based store", ["-witness", "50"])
+_quick("C15", "C15_textkv", "every program of 3 Redis-style text commands out of 16 forms over a string key and a counter key (SET of two symbolic bytes, SET empty, GET, DEL, SETNX, GETSET, APPEND, EXISTS, STRLEN, INCR, DECRBY, GET/DEL/EXISTS of the counter, EXPIRE, PERSIST) on a real TextServerProtocol with waiting disabled, each reply compared with a map-based store", ["-witness", "50"])
 _thorough("C15", "C15_textkv4", "as C15_textkv with 4 commands", ["-witness", "500"])
 
 _quick("C03", "C03_cancel", "a holder and three queued requests, each with T=1 or T=100 (forks); 3 s later (the short ones answered TIMEOUT, possibly still in the queue behind a live one) a third client cancels one of the three by LockId", ["-witness", "1"], reach=["end", "cancel-dead", "cancel-live"])
